@@ -91,6 +91,66 @@ the ban window -/
 def monitorStep (now window : Int) (d : PData) : PData :=
   if d.flags = .banned ∧ now - d.lastBanned ≥ window then updateState now d .healthy else d
 
+/-! ## `Peers::clean_peers` and `add_connected` -/
+
+/-- what `clean_peers` looks at in one connected `Peer` -/
+structure CP where
+  id : Nat
+  outbound : Bool
+  /-- `Peer::is_banned()` (`set_banned` was called) -/
+  banned : Bool
+  /-- `Peer::is_abusive()` -/
+  abusive : Bool
+  /-- `Peer::is_stuck().0` -/
+  stuck : Bool
+  /-- the peer's last announced total difficulty -/
+  diff : Nat
+  /-- listed in `config.peers_preferred` -/
+  preferred : Bool
+deriving DecidableEq, Repr
+
+/-- `Peer::is_connected()`: not banned (nothing else ever changes the state) -/
+def CP.connected (p : CP) : Bool := !p.banned
+
+/-- the per-peer chain: why the peer goes (`none`: it stays), and the state written to the store.  `ourTd` =
+`adapter.total_difficulty()` (`none`: the call failed - the stuck rule is skipped) -/
+def cleanReason (ourTd : Option Nat) (p : CP) : Option (String × Option PState) :=
+  if p.banned then some ("banned", none)
+  else if !p.connected then some ("not connected", none)
+  else if p.abusive then some ("abusive", some .banned)
+  else match ourTd with
+    | some td => if p.stuck ∧ p.diff < td then some ("stuck", some .defunct) else none
+    | none => none
+
+/-- insertion sort by total difficulty (the code: `sort_unstable_by_key`; equal keys in no defined order) -/
+def insertByDiff (p : CP) : List CP → List CP
+  | [] => [p]
+  | q :: r => if p.diff ≤ q.diff then p :: q :: r else q :: insertByDiff p r
+def sortByDiff : List CP → List CP
+  | [] => []
+  | p :: r => insertByDiff p (sortByDiff r)
+
+/-- the outbound peers `clean_peers` removes for being too many: counted over ALL connected outbound peers of
+the map (those the per-peer chain already marked are still counted), the non-preferred ones with the lowest
+total difficulty first -/
+def excessOutbound (maxOut : Nat) (ps : List CP) : List CP :=
+  let ob := ps.filter fun p => p.outbound && p.connected
+  ((sortByDiff (ob.filter fun p => !p.preferred)).take (ob.length - maxOut))
+
+/-- how many inbound peers go for being too many, and the candidates (WHICH of them: map order, unspecified) -/
+def excessInbound (maxIn : Nat) (ps : List CP) : Nat × List CP :=
+  let ib := ps.filter fun p => !p.outbound && p.connected
+  let cand := ib.filter fun p => !p.preferred
+  (min (ib.length - maxIn) cand.length, cand)
+
+/-- the ids removed for a definite reason (per-peer chain, excess outbound) -/
+def cleanDefinite (maxOut : Nat) (ourTd : Option Nat) (ps : List CP) : List Nat :=
+  ((ps.filter fun p => (cleanReason ourTd p).isSome) ++ excessOutbound maxOut ps).map (·.id)
+
+/-- `add_connected`: is the peer put into the map?  (`outboundConnected` = connected outbound peers before) -/
+def addConnectedInserts (outboundConnected minPreferredOutbound : Nat) (isOutbound : Bool) : Bool :=
+  !(decide (outboundConnected ≥ minPreferredOutbound)) || !isOutbound
+
 /-- `Peer::is_connected()` as a function of what ever happened to the `Peer`: only `set_banned` changes it -/
 def peerIsConnected (everBanned : Bool) (_readerEnded _writerEnded _stopped : Bool) : Bool := !everBanned
 
